@@ -856,9 +856,38 @@ func c09OtherConfiguration(res *core.CaseResult) {
 	}
 }
 
+// c09LargeCounts: multiplicities far beyond 2 (255, 256, 257, 512, 513 statements of one kind under one parent):
+// "at most one" and "not permitted" hold for any number, and a list may have any number of leaves.
+func c09LargeCounts(res *core.CaseResult) {
+	const head = "module m {\n  namespace urn:m;\n  prefix m;\n"
+	rep := func(s string, n int) string { return strings.Repeat(s, n) }
+	for _, n := range []int{255, 256, 257, 512, 513} {
+		var leaves strings.Builder
+		for i := 0; i < n; i++ {
+			fmt.Fprintf(&leaves, "    leaf l%d { type string; }\n", i)
+		}
+		cases := []struct{ text, expect, cls, off string }{
+			{head + "  leaf x {\n    type string;\n" + rep("    description d;\n", n) + "  }\n}\n", "reject", fmt.Sprintf("card/leaf/description/%d", n), "description"},
+			{head + "  leaf x {\n" + rep("    type string;\n", n) + "  }\n}\n", "reject", fmt.Sprintf("card/leaf/type/%d", n), "type"},
+			{head + "  leaf x {\n    type string;\n" + rep("    key k;\n", n) + "  }\n}\n", "reject", fmt.Sprintf("card/leaf/key/%d", n), "key"},
+			{head + "  container c {\n" + rep("    presence p;\n", n) + "  }\n}\n", "reject", fmt.Sprintf("card/container/presence/%d", n), "presence"},
+			{head + "  list li {\n    key l0;\n" + leaves.String() + "  }\n}\n", "accept", fmt.Sprintf("card/list/leaf/%d", n), ""},
+			{head + "  container c {\n" + leaves.String() + "  }\n}\n", "accept", fmt.Sprintf("card/container/leaf/%d", n), ""},
+			{head + "  leaf x {\n    type string;\n" + rep("    must \"1 = 1\";\n", n) + "  }\n}\n", "accept", fmt.Sprintf("card/leaf/must/%d", n), ""},
+		}
+		for _, c := range cases {
+			res.Ev("large_multiplicities", 1)
+			c09Check(c.text, c.expect, c.cls, c.off, res)
+		}
+	}
+}
+
 func (p *c09) Run(tier string, seed int64, idx int) core.CaseResult {
 	var res core.CaseResult
 	c09OtherConfiguration(&res)
+	if idx == 0 {
+		c09LargeCounts(&res)
+	}
 	if idx < len(c09TripleList) {
 		t := c09TripleList[idx]
 		root, exp := c09BuildTriple(t)
